@@ -28,6 +28,7 @@ import (
 	"go.uber.org/zap"
 	"google.golang.org/grpc"
 	"google.golang.org/grpc/codes"
+	"google.golang.org/grpc/credentials"
 	"google.golang.org/grpc/credentials/insecure"
 	"google.golang.org/grpc/metadata"
 	"google.golang.org/grpc/status"
@@ -210,6 +211,21 @@ func runC17(args []string) error {
 	}
 	sum := &Summary{Engine: "c17", Seed: rf.Seed,
 		Rule: "(a) a real API server built by cmd.createAPIServer (same interceptor chain) on a loopback listener with the Tables and Maintenance services registered with tokens as cmd/leader.go and cmd/follower.go do, and the KV service without: every method of both protected services (unary and streaming, enumerated from the generated service descriptors) x authorization header variants (none, wrong, prefix, suffix, case variant, scheme case variants, extra spaces, other scheme, the other service's token, right); observed: status code and whether any handler was reached; (b) real TLS handshakes against security.TLSInfo.ServerConfig() with certificates minted by the harness (right/wrong CA, self-signed, none; CN right/wrong/empty/prefix; SAN right/wrong) x option combinations; distinct = distinct (method or option set, credential); non-trivial = credential that differs from the right one in exactly one aspect"}
+	// the host's trust store (whatever the process loads as system roots) holds a CA of its own: being in the host's
+	// store is not being the configured trusted CA.  Has to be in place before anything loads the system roots.
+	sysCA, err := newCA("host-store-ca")
+	if err != nil {
+		return err
+	}
+	if err := os.MkdirAll(rf.Out, 0o700); err != nil {
+		return err
+	}
+	sysFile := filepath.Join(rf.Out, "host-roots.pem")
+	if err := os.WriteFile(sysFile, sysCA.pem, 0o600); err != nil {
+		return err
+	}
+	os.Setenv("SSL_CERT_FILE", sysFile)
+	os.Setenv("SSL_CERT_DIR", filepath.Join(rf.Out, "no-such-dir"))
 	tokf := &CasesFile{Requires: []string{"Model.Bytes", "Model.Obs", "Model.Auth", "Run.C17Run"}, CaseType: "tokcase", Check: "tok_check", Show: "tok_model"}
 	// ---------- (a) tokens ----------
 	const tablesTok, maintTok = "tables-S3cret", "maint-T0ken"
@@ -391,6 +407,7 @@ func runC17(args []string) error {
 		{"good-ca CN=CLIENT.LOCAL SAN=other.local", mkc(good, "CLIENT.LOCAL", []string{"other.local"}), true, true, "CLIENT.LOCAL", false},
 		{"evil-ca CN=client SAN=client.local", mkc(evil, "client", []string{"client.local"}), true, false, "client", true},
 		{"self-signed CN=client", &ss, true, false, "client", false},
+		{"host-trust-store CA (not the configured one) CN=client SAN=client.local", mkc(sysCA, "client", []string{"client.local"}), true, false, "client", true},
 	}
 	ht := sum.hist("tls_options")
 	for _, ca := range []bool{false, true} {
@@ -430,6 +447,11 @@ func runC17(args []string) error {
 						}
 						// in RequireAndVerify mode without a CA file the chains cannot verify
 						chains := c.chains && ca
+						if strings.HasPrefix(c.name, "host-trust-store") && !ca && cfg != nil && cfg.ClientAuth == tls.RequireAndVerifyClientCert {
+							// client certificates are demanded but no CA is configured: crypto/tls then verifies against the
+							// host's trust store (outside the property's hypothesis 'configured with a trusted CA')
+							chains = true
+						}
 						hostOK := c.hostOK && hn == "client.local"
 						tlsf.Add(fmt.Sprintf("{| s_opts := %s; s_presented := %s; s_chains := %s; s_cn := %s; s_host_ok := %s; s_impl := %s |}", opts, cBool(c.presented), cBool(chains), cBytes([]byte(c.cn)), cBool(hostOK), impl), fmt.Sprint(in))
 						sum.Evaluations++
@@ -440,6 +462,50 @@ func runC17(args []string) error {
 				}
 			}
 		}
+	}
+	// ---------- (c) the endpoint as cmd wires it: every TLS scheme of the address really speaks TLS ----------
+	for ei, address := range []string{"https://127.0.0.1:0", "unixs://" + filepath.Join(rf.Out, "api.sock")} {
+		viper.Set("api.address", address)
+		viper.Set("api.cert-filename", certFile)
+		viper.Set("api.key-filename", keyFile)
+		viper.Set("api.ca-filename", caFile)
+		viper.Set("api.allowed-cn", "client")
+		esrv, err := cmd.VerifCreateAPIServer(zap.NewNop(), func(r grpc.ServiceRegistrar) {
+			regattapb.RegisterKVServer(r, &regattaserver.KVServer{Storage: kvStub{}})
+		})
+		if err != nil {
+			return fmt.Errorf("endpoint %s: %w", address, err)
+		}
+		go func() { _ = esrv.Serve() }()
+		target := esrv.Addr().String()
+		if ei == 1 {
+			target = "unix://" + filepath.Join(rf.Out, "api.sock")
+		}
+		in := map[string]any{"api.address": address, "api.ca-filename": "set", "api.allowed-cn": "client"}
+		// a client that speaks plaintext (hence presents no certificate)
+		pc, err := grpc.NewClient(target, grpc.WithTransportCredentials(insecure.NewCredentials()))
+		if err != nil {
+			return err
+		}
+		code := callMethod(pc, "/regatta.v1.KV/Range", false, nil)
+		_ = pc.Close()
+		sum.Evaluations++
+		sum.hist("tls_options").Inc("endpoint scheme " + strings.SplitN(address, ":", 2)[0])
+		if code == codes.OK {
+			sum.violate(sum.Evaluations, "a connection without a certificate chaining to the trusted CA was accepted", in, "a plaintext client (no TLS, no certificate) was served by an endpoint configured with a trusted CA")
+		}
+		// the right client is served
+		good := mkc(good, "client", []string{"client.local"})
+		tc, err := grpc.NewClient(target, grpc.WithTransportCredentials(credentials.NewTLS(&tls.Config{Certificates: []tls.Certificate{*good}, RootCAs: roots, ServerName: "127.0.0.1"})))
+		if err != nil {
+			return err
+		}
+		code = callMethod(tc, "/regatta.v1.KV/Range", false, nil)
+		_ = tc.Close()
+		if code != codes.OK {
+			sum.violate(sum.Evaluations, "the right client certificate was refused", in, fmt.Sprint(code))
+		}
+		esrv.Shutdown()
 	}
 	sum.Samples = append(sum.Samples, tokf.Descr[5], tlsf.Descr[20], tlsf.Descr[len(tlsf.Descr)-3])
 	lnames, err := tlsf.Write(rf.Out, "c17_tls", 300)
